@@ -53,12 +53,10 @@ ArchetypeOperationHelper::ArchetypeOperationHelper(MemoryManager& memory_manager
                     component_index
             });
         }
-        if (info.functions.move) {
-            internal_move.push_back(InternalMoveInfo {
-                    info.functions.move,
-                    info.size
-            });
-        }
+        internal_move.push_back(InternalMoveInfo {
+                info.functions.move,
+                info.size
+        });
         if (info.functions.before_remove) {
             before_remove_functions.push_back({ component_index, info.functions.before_remove });
         }
